@@ -239,6 +239,8 @@ def _next(it, *default):
 def _list(x=()):
     if isinstance(x, SSeq):
         return x.copy('list')
+    if isinstance(x, SObj) and vector_items(x) is not None and isinstance(x.f.get('_items'), SSeq):
+        return x.f['_items'].copy('list')
     if isinstance(x, (loops.SRange, loops.SEnumerate, SObj)):
         v = loops.iteration_view(x)
         if v[0] == 'concrete':
@@ -601,25 +603,45 @@ def abstract_coded(sp, x):
     raise E.Unsupported('item of type %s in a coded sequence' % I.py_type_of(x).__name__)
 
 
+def raw_term(s, x):
+    """the term that represents value x as an element of the typed sequence s"""
+    if isinstance(s.elem, tuple) and s.elem[0] == 'coded':
+        return abstract_coded(s.elem[1], x)
+    if s.elem == 'int':
+        if not ops.is_intlike(x):
+            raise E.Unsupported('element of type %s in an int sequence' % I.py_type_of(x).__name__)
+        return as_int(x)
+    if isinstance(s.elem, tuple) and s.elem[0] == 'enum':
+        if not (isinstance(x, SEnum) and x.cls is s.elem[1]) and not isinstance(x, s.elem[1]):
+            raise E.Unsupported('element of type %s in a sequence of %s' % (I.py_type_of(x).__name__, s.elem[1].__name__))
+        return ops.enum_index(x)
+    raise E.Unsupported('element of a %r sequence' % (s.elem,))
+
+
+def typed_seq_of(s, values):
+    """python list / SSeq of values as a sequence with the element kind of s"""
+    if isinstance(values, SSeq):
+        if values.elem == s.elem or (isinstance(values.elem, tuple) and isinstance(s.elem, tuple) and values.elem[0] == s.elem[0]):
+            return values
+        raise E.Unsupported('mixing %r and %r sequences' % (values.elem, s.elem))
+    terms = [raw_term(s, x) for x in I.iterate_concrete(values)]
+    out = V.seq_of_terms(terms, s.kind)
+    out.elem = s.elem
+    return out
+
+
 @method_model('seq', 'append')
 def _seq_append(s, x):
     if s.kind not in ('list', 'bytearray'):
         raise_(AttributeError, 'append')
-    if isinstance(s.elem, tuple) and s.elem[0] == 'coded':
-        t = abstract_coded(s.elem[1], x)
-    elif s.elem == 'int':
-        t = as_int(x)
-    elif isinstance(s.elem, tuple) and s.elem[0] == 'enum':
-        t = ops.enum_index(x)
-    else:
-        raise E.Unsupported('append to %r sequence' % (s.elem,))
+    t = raw_term(s, x)
     nv = V.concat(s, V.seq_of_terms([t], s.kind), s.kind)
     s.set(nv.n, nv._at)
 
 
 @method_model('seq', 'extend')
 def _seq_extend(s, xs):
-    nv = V.concat(s, ops.as_seq(xs), s.kind)
+    nv = V.concat(s, typed_seq_of(s, xs) if s.elem != 'int' else ops.as_seq(xs), s.kind)
     s.set(nv.n, nv._at)
 
 
@@ -629,8 +651,16 @@ def _seq_insert(s, i, x):
     n = s.n
     pos = V.simp(z3.If(i < 0, z3.If(i + n < 0, z3.IntVal(0), i + n), z3.If(i > n, n, i)))
     head, tail = V.slice_seq(s, 0, pos), V.slice_seq(s, pos, None)
-    nv = V.concat(V.concat(head, V.seq_of_terms([as_int(x)], s.kind), s.kind), tail, s.kind)
+    nv = V.concat(V.concat(head, V.seq_of_terms([raw_term(s, x)], s.kind), s.kind), tail, s.kind)
     s.set(nv.n, nv._at)
+
+
+@method_model('seq', 'reverse')
+def _seq_reverse(s):
+    if s.kind not in ('list', 'bytearray'):
+        raise_(AttributeError, 'reverse')
+    n, at = s.n, s._at
+    s.set(n, lambda i, at=at, n=n: at(V.simp(n - 1 - V.iv(i))))
 
 
 @method_model('seq', 'decode')
